@@ -77,9 +77,10 @@ def _solve1(pc, goal, timeout_ms, want_model=True, use_cvc5=True):
         if r2 == "unsat":
             return "unsat", dt + dt2, "cvc5", None
     if qf_model is not None:
-        # candidate counter-model of the instantiated problem (instantiation may be incomplete): reported as sat,
-        # the caller replays it on the real code before calling it a violation
-        return "sat", time.time() - t0, "z3-qf-candidate", qf_model
+        # counter-model of the *instantiated* problem only (instantiation may be incomplete): a candidate, not a refutation.
+        # The decision procedure counts it as a failed obligation only if this obligation is recorded as discharged on
+        # the reference tree (baseline/), otherwise as undecided.
+        return "candidate", time.time() - t0, "z3-qf-candidate", qf_model
     return "unknown", dt, "z3", s.reason_unknown()
 
 
@@ -113,7 +114,7 @@ class Report:
         d["vcs"] += 1
         d["secs"] += secs
         d["backends"].add(backend)
-        rank = {"unsat": 0, "unknown": 1, "sat": 2}
+        rank = {"unsat": 0, "unknown": 1, "candidate": 2, "sat": 3}
         if rank[status] > rank[d["status"]]:
             d["status"] = status
             d["model"] = model
@@ -128,7 +129,7 @@ class Report:
                 d["vcs"] += v["vcs"]
                 d["secs"] += v["secs"]
                 d["backends"] |= v["backends"]
-                rank = {"unsat": 0, "unknown": 1, "sat": 2}
+                rank = {"unsat": 0, "unknown": 1, "candidate": 2, "sat": 3}
                 if rank[v["status"]] > rank[d["status"]]:
                     d["status"], d["model"], d["detail"] = v["status"], v["model"], v["detail"]
         for k, v in other.functions.items():
@@ -158,11 +159,17 @@ def model_to_dict(m, terms):
 
 
 def verify_function(index, theory, contract, use_contracts=(), contracts=None, loop_specs=None, report=None, timeout_ms=None,
-                    describe=None):
+                    describe=None, vc_slice=None):
     """Checks `contract` against the real body of its target for every declared case."""
     report = report or Report()
     finfo = index.func(contract.target)
     q = contract.target
+    counter = [0]
+
+    def mine():
+        """the path-VCs of one function are enumerated in a deterministic order; a job may solve only its slice of them"""
+        counter[0] += 1
+        return vc_slice is None or (counter[0] - 1) % vc_slice[1] == vc_slice[0]
     frec = report.functions.setdefault(q, {"hash": finfo.source_hash(), "mode": "verified against its contract", "paths": 0, "cases": 0})
     for case_name, args, assumptions in contract.cases(theory):
         ex = Exec(index, theory, contracts=contracts or {}, use_contracts=use_contracts, loop_specs=loop_specs or {})
@@ -173,11 +180,14 @@ def verify_function(index, theory, contract, use_contracts=(), contracts=None, l
         req = contract.requires(ex0, *args)
         pre.append(req)
         st, secs, be, _ = solve(pre, z3.BoolVal(False), timeout_ms=5000, want_model=False, use_cvc5=False)
-        report.add(f"{q}#cover.{case_name}", "unsat" if st in ("sat", "unknown") else "sat", secs, be,
+        report.add(f"{q}#cover.{case_name}", "unsat" if st != "unsat" else "sat", secs, be,
                    detail=None if st != "unsat" else "precondition unsatisfiable (vacuous contract)")
         try:
             outcomes, obligations = ex.explore(lambda e: e.call_function(finfo, list(args), inline=True), pre)
         except OutsideSubset as e:
+            if os.environ.get("PYVC_DEBUG"):
+                import traceback
+                traceback.print_exc()
             report.add(f"{q}#subset.{case_name}", "unknown", 0.0, "engine", detail=f"outside subset: {e}")
             continue
         frec["paths"] += len(outcomes)
@@ -185,22 +195,28 @@ def verify_function(index, theory, contract, use_contracts=(), contracts=None, l
         if not outcomes and not obligations:
             report.add(f"{q}#reach.{case_name}", "sat", 0.0, "engine", detail="no feasible path reaches a return (vacuous)")
         for ob in obligations:
+            if not mine():
+                continue
             st, secs, be, m = solve(ob.pc, ob.cond, timeout_ms)
             nm = ob.name if "#" in ob.name else f"{q}#{ob.name}"
-            report.add(nm, st, secs, be, model=_fmt(m, describe, args) if st == "sat" else None,
+            report.add(nm, st, secs, be, model=_fmt(m, describe, args) if st in ("sat", "candidate") else None,
                        detail={"case": case_name, **(ob.info or {})} if st != "unsat" else None)
         for oc in outcomes:
             ex1 = Exec(index, theory)
             ex1.pc, ex1.obls, ex1.guards = list(oc.pc), [], []
             if oc.kind == "raise":
                 allowed = contract.allowed_raise(ex1, args, oc.value.cls_name)
+                if not mine():
+                    continue
                 st, secs, be, m = solve(oc.pc, allowed, timeout_ms)
-                report.add(f"{q}#raises.{oc.value.cls_name}", st, secs, be, model=_fmt(m, describe, args) if st == "sat" else None,
+                report.add(f"{q}#raises.{oc.value.cls_name}", st, secs, be, model=_fmt(m, describe, args) if st in ("sat", "candidate") else None,
                            detail={"case": case_name, "raised": oc.value.cls_name, "msg": oc.value.msg} if st != "unsat" else None)
                 continue
             for nm, cl in contract.ensures(ex1, args, oc.value):
+                if not mine():
+                    continue
                 st, secs, be, m = solve(oc.pc, cl, timeout_ms)
-                report.add(f"{q}#post.{nm}", st, secs, be, model=_fmt(m, describe, args, oc.value) if st == "sat" else None,
+                report.add(f"{q}#post.{nm}", st, secs, be, model=_fmt(m, describe, args, oc.value) if st in ("sat", "candidate") else None,
                            detail={"case": case_name} if st != "unsat" else None)
     return report
 
@@ -227,7 +243,7 @@ def verify_cases(index, theory, qname, cases, use_contracts=(), contracts=None, 
         ex = Exec(index, theory, contracts=contracts or {}, use_contracts=use_contracts, loop_specs=loop_specs or {})
         pre = list(case.get("pre", []))
         st, secs, be, _ = solve(pre, z3.BoolVal(False), timeout_ms=5000, want_model=False, use_cvc5=False)
-        report.add(f"{qname}#cover" if many else f"{qname}#cover.{case['name']}", "unsat" if st in ("sat", "unknown") else "sat", secs, be,
+        report.add(f"{qname}#cover" if many else f"{qname}#cover.{case['name']}", "unsat" if st != "unsat" else "sat", secs, be,
                    detail=None if st != "unsat" else "hypotheses unsatisfiable (vacuous)")
         try:
             outcomes, obligations = ex.explore(case["thunk"], pre)
@@ -240,7 +256,7 @@ def verify_cases(index, theory, qname, cases, use_contracts=(), contracts=None, 
         for ob in obligations:
             st, secs, be, m = solve(ob.pc, ob.cond, timeout_ms)
             nm = ob.name if "#" in ob.name else f"{qname}#{ob.name}"
-            report.add(nm, st, secs, be, model=_fmt(m, describe, case.get("args")) if st == "sat" else None,
+            report.add(nm, st, secs, be, model=_fmt(m, describe, case.get("args")) if st in ("sat", "candidate") else None,
                        detail={"case": case["name"], **(ob.info or {})} if st != "unsat" else None)
         for oc in outcomes:
             ex1 = Exec(index, theory)
@@ -249,11 +265,11 @@ def verify_cases(index, theory, qname, cases, use_contracts=(), contracts=None, 
                 ar = case.get("allowed_raise")
                 allowed = ar(oc.value.cls_name) if ar else z3.BoolVal(False)
                 st, secs, be, m = solve(oc.pc, allowed, timeout_ms)
-                report.add(f"{qname}#raises.{oc.value.cls_name}", st, secs, be, model=_fmt(m, describe, case.get("args")) if st == "sat" else None,
+                report.add(f"{qname}#raises.{oc.value.cls_name}", st, secs, be, model=_fmt(m, describe, case.get("args")) if st in ("sat", "candidate") else None,
                            detail={"case": case["name"], "raised": oc.value.cls_name, "msg": oc.value.msg} if st != "unsat" else None)
                 continue
             for nm, cl in case["post"](ex1, oc.value):
                 st, secs, be, m = solve(oc.pc, cl, timeout_ms)
-                report.add(f"{qname}#{nm}", st, secs, be, model=_fmt(m, describe, case.get("args"), oc.value) if st == "sat" else None,
+                report.add(f"{qname}#{nm}", st, secs, be, model=_fmt(m, describe, case.get("args"), oc.value) if st in ("sat", "candidate") else None,
                            detail={"case": case["name"]} if st != "unsat" else None)
     return report
